@@ -269,9 +269,12 @@ impl ColumnType<'_> {
             ColumnType::Native(n) => n.type_size_for_vector(),
             ColumnType::Tuple(_) => None,
             ColumnType::Collection { .. } => None,
+            // Saturating: the dimensions may come from the network, and a vector nested a few
+            // levels deep (65535 elements each) exceeds `usize`. No buffer can hold such a value,
+            // so reading `usize::MAX` bytes simply fails with an error.
             ColumnType::Vector { typ, dimensions } => typ
                 .type_size_for_vector()
-                .map(|size| size * usize::from(*dimensions)),
+                .map(|size| size.saturating_mul(usize::from(*dimensions))),
             ColumnType::UserDefinedType { .. } => None,
         }
     }
